@@ -64,6 +64,8 @@ struct Harness {
     lastset: Vec<Option<u32>>,
     /// 0 = never started, 1 = alive, 2 = exited
     life: Vec<u8>,
+    /// body ids whose future has been created (a body is spawned/started at most once)
+    created: Vec<usize>,
 }
 
 thread_local! {
@@ -141,8 +143,13 @@ fn last_chan() -> (usize, u32, u32) {
     })
 }
 
+/// an operation id is used by at most one await
+fn op_fresh(k: usize) -> bool {
+    hw(|h| k < h.ops.len() && !h.oprt[k].started)
+}
+
 async fn await_op(k: usize) {
-    let d = hw(|h| h.ops[k]);
+    let d = hw(|h| { h.oprt[k].started = true; h.ops[k] });
     {
         let _fin = Fin(k);
         match d.kind {
@@ -155,7 +162,7 @@ async fn await_op(k: usize) {
                 let (chan, wh, rh) = last_chan();
                 host::peer_take(wh);
                 std::mem::forget(tx);
-                hw(|h| h.oprt[k] = OpRt { started: true, finished: false, w: rh, chan });
+                hw(|h| { h.oprt[k].w = rh; h.oprt[k].chan = chan; });
                 if d.imm { host::peer_write(chan, vec![7]); }
                 let _ = rx.read(Vec::with_capacity(1)).await;
             }
@@ -165,7 +172,7 @@ async fn await_op(k: usize) {
                 host::peer_take(rh);
                 rx.take_handle();
                 drop(rx);
-                hw(|h| h.oprt[k] = OpRt { started: true, finished: false, w: wh, chan });
+                hw(|h| { h.oprt[k].w = wh; h.oprt[k].chan = chan; });
                 if d.imm { host::peer_read(chan, 1); }
                 let _ = tx.write(vec![7]).await;
             }
@@ -174,7 +181,7 @@ async fn await_op(k: usize) {
                 let (chan, wh, rh) = last_chan();
                 host::peer_take(wh);
                 std::mem::forget(tx);
-                hw(|h| h.oprt[k] = OpRt { started: true, finished: false, w: rh, chan });
+                hw(|h| { h.oprt[k].w = rh; h.oprt[k].chan = chan; });
                 if d.imm { host::peer_write(chan, vec![7]); }
                 let _ = rx.into_future().await;
             }
@@ -184,7 +191,7 @@ async fn await_op(k: usize) {
                 host::peer_take(rh);
                 rx.take_handle();
                 drop(rx);
-                hw(|h| h.oprt[k] = OpRt { started: true, finished: false, w: wh, chan });
+                hw(|h| { h.oprt[k].w = wh; h.oprt[k].chan = chan; });
                 if d.imm { host::peer_read(chan, 1); }
                 let _ = tx.write(7).await;
             }
@@ -269,7 +276,7 @@ impl Future for BodyFut {
 #[cfg(feature = "async-spawn")]
 fn do_spawn(b: usize) { wit_bindgen::spawn_local(body(b, false)) }
 #[cfg(not(feature = "async-spawn"))]
-fn do_spawn(_b: usize) { panic!("spawn step without async-spawn") }
+fn do_spawn(_b: usize) {}
 
 fn body(b: usize, root: bool) -> BodyFut {
     let (steps, start_mode) = hw(|h| (h.bodies.get(b).cloned().unwrap_or_default(), h.start_mode));
@@ -279,12 +286,19 @@ fn body(b: usize, root: bool) -> BodyFut {
         let tc = if root && start_mode { Some(rt::TaskCancelOnDrop::new()) } else { None };
         for s in steps {
             match s {
-                Step::Await(k) => await_op(k).await,
+                Step::Await(k) => if op_fresh(k) { await_op(k).await },
                 Step::Yield => wit_bindgen::yield_async().await,
-                Step::Spawn(b2) => { host::log(format!("spawn:{b2}")); do_spawn(b2) }
+                Step::Spawn(b2) => if cfg!(feature = "async-spawn") && !hw(|h| h.created.contains(&b2)) {
+                    host::log(format!("spawn:{b2}"));
+                    hw(|h| h.created.push(b2));
+                    do_spawn(b2)
+                }
                 Step::Flag(j) => FlagFut { j, b: bid }.await,
                 Step::Wake(j) => { host::log(format!("wflag:{j}")); signal_flag(j) }
-                Step::Join(k, j) => Join2 { a: Some(Box::pin(await_op(k))), b: Some(FlagFut { j, b: bid }) }.await,
+                Step::Join(k, j) => {
+                    let a: Option<Pin<Box<dyn Future<Output = ()>>>> = if op_fresh(k) { Some(Box::pin(await_op(k))) } else { None };
+                    Join2 { a, b: Some(FlagFut { j, b: bid }) }.await
+                }
                 Step::Ctx => { host::context_get_0(); }
             }
         }
@@ -402,6 +416,9 @@ fn run_action(a: Action) {
     match a {
         Action::Start(t) => {
             if life(t) != 0 || t as usize >= hw(|h| h.roots.len()) { return; }
+            let root = hw(|h| h.roots[t as usize]);
+            if hw(|h| h.created.contains(&root)) { return; }
+            hw(|h| h.created.push(root));
             host::log(format!(">start:{t}"));
             set_life(t, 1);
             host::set_current_task(t);
@@ -536,6 +553,7 @@ fn scenario(line: &str) -> String {
             host::on_block(hook);
             host::set_current_task(0);
             let root = hw(|h| h.roots.first().copied().unwrap_or(0));
+            hw(|h| h.created.push(root));
             wit_bindgen::block_on(body(root, true));
             host::log("bon:0");
         }
